@@ -7,6 +7,7 @@ import numpy as np
 from hypothesis import strategies as st
 
 from vlib import cy, gens
+from vlib import fuzz
 from vlib.harness import Cell, Violation, require
 
 ca = cy.ca
@@ -637,6 +638,11 @@ def build(tier):
         Cell("bus/scenario", scenario(), check_bus, bus_nontrivial, bus_classify, quick=500, thorough=12000,
              build=lambda: mods()),
         Cell("estimator/scheduling", est_scenario(), check_estimator, est_nontrivial, est_classify, quick=500, thorough=12000),
+        # thorough tier: coverage-guided campaigns (atheris/libFuzzer on the Python branches of uros.py / estimator.py) over the
+        # same strategies and the same oracles
+        fuzz.atheris_cell("bus/atheris", "props.c20_bus", "scenario", "check_bus", ["cyecca.sim.uros", "cyecca.sim.msgs"], 40000, "c20_bus"),
+        fuzz.atheris_cell("estimator/atheris", "props.c20_bus", "est_scenario", "check_estimator",
+                          ["cyecca.sim.uros", "cyecca.sim.msgs", "cyecca.estimate.attitude.estimator"], 40000, "c20_est"),
     ]
     return {
         "cells": cells,
@@ -656,4 +662,5 @@ def build(tier):
                             "estimator/scheduling": ["non-positive-dt", "too-early-correction-opportunity", "dt_min-update",
                                                      "accel>mag", "accel<mag"]},
         "matchers": {},
+        "extra_coverage": fuzz.atheris_stats(["c20_bus", "c20_est"]),
     }
